@@ -438,6 +438,33 @@ def short_repr(v, n=300):
 
 
 # =====================================================================================================================
+KIND_MARKS = [("struct", r"S\["), ("bits", r"bits"), ("ipv4", r"ipv4"), ("address", r"addr[01]"), ("raw", r"raw"),
+              ("varlen", r"V\d+:"), ("varlenUtf8", r"U\d+:"), ("listOf", r"L\d+\("), ("array", r"A\d+[bqd]"),
+              ("nested", r"P\("), ("flags", r"F\d"), ("node", r"node")]
+
+
+# branch classes of the hand-written model (and generator classes) that EVERY full run must reach; a run in which one of
+# them stays at zero ends with exit 2 (coverage lost), not with a pass.  `x*` = some key with this prefix.
+REQUIRED = (
+    [f"model:{op}:{k}:ok" for op in ("pack", "unpack") for k, _ in KIND_MARKS]
+    + [f"model:{op}:struct-field:{f}" for op in ("pack", "unpack") for f in "uibcxf"]
+    + [f"model:{op}:array-elem:{a}" for op in ("pack", "unpack") for a in "bqd"]
+    + [f"model:unpack:address-family:{f}" for f in ("a4", "a6", "ad")]
+    + ["model:unpack:err:short", "model:unpack:err:utf8", "model:unpack:err:addr", "model:pack:err:range",
+       "model:pack:err:addr", "model:pack:err:type", "model:dlist:ok", "model:dlist:err:extra",
+       "model:encode:ok", "model:decode:ok", "model:init:ok", "model:cell:tobin:ok", "model:cell:frombin:ok",
+       "model:cell:unwrap:ok", "model:dc:raise", "model:dc:inst", "model:dc:decoded-as-itself-or-base",
+       "model:dcrule:list", "model:dcrule:tuple", "model:dcrule:set", "model:reg:unknown-name", "model:reg:resolved",
+       "iso_registration:override-default", "iso_registration:fresh-name", "iso_scenario:name-shared-between-overlays",
+       "dc_recv:known-finding:never-converted", "dc_recv:known-finding:ancestor-converted",
+       "dc_recv:known-finding:unconverted-member", "dc_recv:as-expected-by-property", "dc_container_chain:tuple>list*",
+       "dc_reannotated_inherited_field", "adhoc_hook:compiled:behind-bits", "adhoc_hook:interpreted:behind-bits",
+       "nested_body_size:32768-65535", "ctor_int_arg:max", "ctor_arg:out-of-domain", "foreign_datagram",
+       "serializer_api:name", "serializer_api:class", "serializer_api:class-list", "golden:old_wire",
+       "golden:frozen_layout", "embedding:nested", "embedding:listed", "offset:0", "offset:23+", "address:domain"])
+
+
+
 class Run:
     """one harness run: accumulates driver lines with the implementation's answer, diffs at the end"""
 
@@ -470,6 +497,72 @@ class Run:
         """one PRNG per case, derived from the run seed: a replay regenerates exactly the case it names"""
         return random.Random(f"{self.ctx.seed}:{self.ctx.tier}:{section}:{'s' if self.ctx.searching else 'r'}:{idx}")
 
+    def branch_keys(self, line: str, reply: str) -> list[str]:
+        """which branches of the hand-written model a driver line went through (counted as `model:*` in the evidence)"""
+        import re
+        t = line.split(" ")
+        op = t[0]
+        out = []
+        ok = reply.startswith("ok") or (op in ("dc", "dcrule", "reg") and reply != "bad-op")
+        res = "ok" if ok else ("err:" + reply[4:] if reply.startswith("err") else reply[:12])
+        if op in ("pack", "unpack", "packl", "unpackl") and len(t) > 1:
+            ftok = t[1]
+            if ftok.startswith("@"):
+                d = self.info["registry"].get(ftok[1:])
+                ftok = fmt_token(d) if d and d["kind"] not in ("payload", "payloadList") else ""
+            base = "pack" if op.startswith("pack") else "unpack"
+            if ok:
+                for kind, pat in KIND_MARKS:
+                    if re.search(pat, ftok):
+                        out.append(f"model:{base}:{kind}:ok")
+                for fk in set(re.findall(r"[\[,]([uibcxf])", ftok)):
+                    out.append(f"model:{base}:struct-field:{fk}")
+                for ak in set(re.findall(r"A\d+([bqd])", ftok)):
+                    out.append(f"model:{base}:array-elem:{ak}")
+                if base == "unpack":
+                    for fam in set(re.findall(r"\b(a4|a6|ad):", reply)):
+                        out.append(f"model:unpack:address-family:{fam}")
+            else:
+                out.append(f"model:{base}:{res}")
+        elif op in ("encode", "decode", "dlist"):
+            out.append(f"model:{op}:{res}")
+            if ok and op != "dlist":
+                out.append(f"model:{op}:class:{t[1].rpartition('.')[2]}")
+        elif op == "old" and len(t) > 2:
+            out.append(f"model:init:{res}")
+        elif op == "ulist":
+            out.append(f"model:ulist:{res}")
+        elif op == "cell":
+            out.append(f"model:cell:{t[1]}:{res}")
+        elif op == "dc":
+            out.append("model:dc:" + ("raise" if reply.startswith("raise") else "inst" if reply.startswith("inst") else
+                                      "decoded-as-itself-or-base"))
+        elif op == "dcrule":
+            out.append("model:dcrule:" + reply)
+        elif op == "reg":
+            out.append("model:reg:" + ("unknown-name" if reply == "none" else "resolved"))
+        return out
+
+    def missing_required(self) -> list[str]:
+        c = self.ctx.counts
+        need = list(REQUIRED)
+        for p in self.info["payloads"]:
+            if p["kind"] != "old" or type(self).old_known(p):
+                cn = p["name"].rpartition(".")[2]
+                need += [f"model:encode:class:{cn}", f"model:decode:class:{cn}"]
+        miss = []
+        for k in need:
+            if k.endswith("*"):
+                if not any(x.startswith(k[:-1]) and v > 0 for x, v in c.items()):
+                    miss.append(k)
+            elif c.get(k, 0) <= 0:
+                miss.append(k)
+        return miss
+
+    @staticmethod
+    def old_known(p) -> bool:
+        return p["name"].rpartition(".")[2] in OLD
+
     LIMITED = ("DataClassPayload:decode-before-first-instance",)
 
     def fail_limited(self, signature, what, rep):
@@ -494,6 +587,8 @@ class Run:
         d = self.ctx.driver()
         replies = d.batch([ln for ln, _, _ in self.lines], timeout=1200)
         for (ln, impl, rep), mod in zip(self.lines, replies):
+            for k in self.branch_keys(ln, mod):
+                self.ctx.count(k)
             if mod.startswith("err"):
                 self.ctx.count("model_error:" + mod[4:])
                 mod = "err"
@@ -775,6 +870,28 @@ class Run:
             ctx.count("illegal:" + impl[:3])
             self.model(f"pack @{name} {token(d, v)}", impl, rep)
             ctx.case(("illegal", name, i), True)
+
+    # --- section: fixed malformed inputs, one per decode-error class of the model (so that each is reached in every run) ----
+    def bad_decodes(self):
+        ctx = self.ctx
+        reg = self.info["registry"]
+        cases = [("address", bytes([9, 1, 2, 3, 4, 0, 5])), ("ip_address", bytes([2, 0, 1, 97, 0, 5])),
+                 ("varlenHutf8", bytes([0, 2, 0xC3, 0x28])), ("varlenHutf8", bytes([0, 3, 0xED, 0xA0, 0x80])),
+                 ("address", bytes([2, 0, 2, 0xFF, 0xFE, 0, 80])), ("H", b"\x01"), ("varlenH", bytes([0, 5, 1, 2])),
+                 ("ipv4", bytes(5)), ("bits", b""), ("flags", b"\x00"), ("varlenH-list", bytes([2, 0, 1, 7])),
+                 ("arrayH-q", bytes([0, 2]) + bytes(8))]
+        for i, (name, data) in enumerate(cases):
+            if name not in reg or reg[name]["kind"] in ("payload", "payloadList"):
+                continue
+            rep = {"section": "bad_decodes", "index": i, "packer": name, "data": data.hex()}
+            try:
+                got, new = self.unpack_packer(name, reg[name], b"\xee" + data, 1)
+                impl = f"ok {token(reg[name], got)} {new}"
+            except Exception:
+                impl = "err"
+            ctx.count("bad_decode:" + impl[:3])
+            self.model(f"unpack @{name} ee{data.hex()} 1", impl, rep)
+            ctx.case(("bad_decodes", i), True)
 
     # --- section: pack inputs the packers accept beyond the round-trip domain (truthiness, surplus arguments) -------------------
     def loose(self):
@@ -1479,12 +1596,12 @@ class Run:
         ns = {} if msg_id is None else {"msg_id": msg_id}
         return dataclasses.make_dataclass(name, [(f[0], f[1]) for f in fields], bases=(base,), namespace=ns, module=__name__)
 
-    def dc_value(self, rng, f, build=True):
+    def dc_value(self, rng, f, build=True, force_n=None):
         """-> (constructor argument, value in layout shape, expected field value after decoding)"""
         kind = f[3]
         if kind in ("nested", "nestedlist", "nestedtuple"):
             leaf = f[4]
-            n = 1 if kind == "nested" else rng.choice([0, 1, 2, 3])
+            n = 1 if kind == "nested" else rng.choice([0, 1, 2, 3]) if force_n is None else force_n
             subs = []
             for _ in range(n):
                 vals = [gen_value(rng, lf[2], self.ctx, 1) for lf in leaf["fields"]]
@@ -1575,6 +1692,13 @@ class Run:
                         out.append(f)
                 return out, redeclared
             bf = new_fields(rng.choice([1, 2, 3]))
+            forced = idx <= 6     # deterministic scenarios: a converted message class meets a never-converted member class
+            if forced:
+                lay0 = {"kind": "listOf", "len_width": 1, "elem": leafs[0]["layout"]}
+                seq = list if idx % 2 else tuple
+                bf = [("f1", int, self.doc["q"], "atom:int"),
+                      ("f2", seq[leafs[0]["cls"]], lay0, "nestedlist" if seq is list else "nestedtuple", leafs[0])]
+                counter[0] = 2
             base = self.dc_make(f"DcBase{idx}", bf, DataClassPayload[rng.randrange(1, 200)] if with_id else DataClassPayload, None)
             chains = {f[0]: [f[3]] for f in bf}
             classes = [("base", bf, base, dict(chains))]
@@ -1607,7 +1731,7 @@ class Run:
             converted = set()            # what the known finding's mechanism predicts: classes converted so far
             ops = []
             for j, lf in enumerate(leafs):
-                if rng.random() < 0.5:
+                if rng.random() < 0.5 and not forced:
                     try:
                         lf["cls"](*[gen_value(rng, f[2], None, 1) for f in lf["fields"]])
                         converted.add(nh + j)
@@ -1625,16 +1749,19 @@ class Run:
                 steps.append(("use", ci))
             if rng.random() < 0.5:
                 steps.append(("recv", rng.randrange(nh)))
+            steps = [(k, c, None) for k, c in steps]
+            if forced:
+                steps = [("use", 0, 0), ("recv", 0, 2), ("recv", 0, 1)] + steps
             ctx.count("dc_shape:" + shape)
             ctx.count("dc_first_step:" + steps[0][0] + "-" + classes[steps[0][1]][0])
             seen = []
             model_in_sync = True
-            for step, (kind, ci) in enumerate(steps):
+            for step, (kind, ci, force_n) in enumerate(steps):
                 role, fields, cls, chain = classes[ci]
                 hist = ">".join(seen + [f"{kind}:{role}"])
                 seen.append(f"{kind}:{role}")
                 layout = {"kind": "nested", "fields": [f[2] for f in fields]}
-                triples = [self.dc_value(rng, f, build=(kind == "use")) for f in fields]
+                triples = [self.dc_value(rng, f, build=(kind == "use"), force_n=force_n) for f in fields]
                 args, vals, expect = [t[0] for t in triples], [t[1] for t in triples], [t[2] for t in triples]
                 rep = {"section": "dataclass", "index": idx, "step": step, "history": hist, "role": role, "kind": kind,
                        "fields": [(f[0], f[3]) for f in fields], "values": short_repr(vals, 300)}
@@ -2052,6 +2179,8 @@ class Run:
     def ulists(self, n: int):
         ctx = self.ctx
         pls = self.info["payloads"]
+        if not pls:
+            return
         for idx in range(1, n + 1):
             rng = self.rng_for(S_ULIST, idx)
             k = rng.choice([1, 2, 2, 3])
@@ -2262,12 +2391,14 @@ def live_info(ctx: Ctx):
     saved = dict(gen_c02.LENW)
     try:
         gen_c02.LENW.update({"B": 1, "H": 2, "I": 4, "<B": 1, "<H": 2, "<I": 4, "=H": 2, "@H": 2})
+        gen_c02.TOLERANT_CODE = True
         info = gen_c02.collect()
     except Exception:
         info = None
     finally:
         gen_c02.LENW.clear()
         gen_c02.LENW.update(saved)
+        gen_c02.TOLERANT_CODE = False
     if info is None:
         # last resort: the registry as frozen in the spec
         info = {"registry": {e["name"]: e["layout"] for e in spec["documented"] + spec["frozen_undocumented"]},
@@ -2293,6 +2424,7 @@ def sections(r: Run, ctx: Ctx, scale):
     r.offset_sweep(scale["sweep"])
     r.packers(scale["packers"])
     r.illegal()
+    r.bad_decodes()
     r.loose()
     r.classes(scale["classes"])
     r.adhoc(scale["adhoc"])
@@ -2312,6 +2444,13 @@ def run(ctx: Ctx):
     scale = SCALE(ctx)
     r = Run(ctx, info, spec, use_model)
     sections(r, ctx, scale)
+    if use_model:
+        missing = r.missing_required()
+        ctx.extra["required_branch_classes"] = {"required": len(REQUIRED) + 2 * len(info["payloads"]), "missing": missing}
+        if missing and not [f for f in ctx.failures if f["signature"] not in Run.LIMITED] and not ctx.disagreements:
+            # a silent loss of coverage must not look like a pass
+            from vlib import InfraError
+            raise InfraError("coverage lost: branch classes the design lists were not reached in this run: " + ", ".join(missing[:12]))
     kinds = {}
     for p in info["payloads"]:
         kinds[p["kind"]] = kinds.get(p["kind"], 0) + 1
